@@ -113,7 +113,7 @@ impl<'a> World<'a> {
         }
     }
 
-    fn emit(&mut self, mut ev: J) {
+    pub fn emit(&mut self, mut ev: J) {
         ev["i"] = json!(self.events);
         ev["tag"] = json!(self.tag);
         self.events += 1;
